@@ -150,6 +150,10 @@ func scopesC07orders(thorough bool) []Scope {
 		{Name: "L-holes-orders", GS: synthGS(1, 2, [2]int64{13, 13}), Spec: lat.Spec{Points: scale(lat.Window(3, 3, 1), 4), MaxK: 4, Valid: true, MaxHoles: 1, HoleMaxK: 3}, IDSets: [][]int{{0, 1}}, Cfgs: keepCfgs},
 		{Name: "C-walk-orders", GS: synthGS(2, 2, [2]int64{31, 31}), Spec: lat.Spec{Points: lat.Centres(2, 2), MinK: 1, MaxK: k(5, 7), Repeats: true}, IDSets: ids3, Cfgs: keepCfgs},
 	}
+	// every walk over the four pixel centres as the shell (rings wound twice, figure-eights, back-traces:
+	// several equal or nested outer rings) with a fixed triangular hole inside the centre square, whose
+	// snapped vertices lie on all of those outer rings: hole matching must choose among equal candidates
+	scs = append(scs, shellWalkScope(k(8, 9)))
 	// the families of larger polygons (rings that split into several outer rings, holes that must be
 	// matched to one of several shells, equal pieces that cancel): the places where a choice among
 	// equal candidates can depend on an iteration order
@@ -158,6 +162,13 @@ func scopesC07orders(thorough bool) []Scope {
 		scs = append(scs, f)
 	}
 	return scs
+}
+
+// shellWalkScope: quarter-pixel lattice; centres of a 2x2 window = (2,2) (6,2) (2,6) (6,6)
+func shellWalkScope(maxK int) Scope {
+	centres := []ref.P{{2, 2}, {6, 2}, {2, 6}, {6, 6}}
+	hole := []ref.P{{3, 3}, {3, 5}, {5, 3}}
+	return Scope{Name: "S-walk+hole", GS: synthGS(0, 4, [2]int64{6, 6}), Spec: lat.Spec{Suffix: [][]ref.P{hole}, Points: centres, MinK: 3, MaxK: maxK, Repeats: true, NoStutter: true}, IDSets: [][]int{{0}}, Cfgs: keepCfgs}
 }
 
 func scopesC07plain(thorough bool) []Scope {
